@@ -126,6 +126,9 @@ def family(tier, seed):
         p_i = P_INITIAL[table]
         runs.append({"reservoir": "single", "table": table, "table_params": table_params(table), "p_i": p_i, "p_f": ratio * p_i, "ratio": ratio, "nx": nx,
                      "grid": {"kind": grid, "nt": nt, "t_end": 5.0, "seed": seed * 100003 + n}, "schedule": {"kind": sched, "seed": seed * 100019 + n, "levels": 4, "hold": 3}})
+    for res_, tab_ in (("ideal", "ideal"), ("single", "gas")):
+        runs.append({"reservoir": res_, "table": tab_, "table_params": (None if tab_ == "ideal" else table_params(tab_)), "p_i": 8000.0, "p_f": 4000.0, "ratio": 0.5, "nx": 10,
+                     "grid": {"kind": "tinysteps"}, "schedule": {"kind": "constant"}})
     for n, (nx, grid) in enumerate(itertools.product(NXS, grids)):
         runs.append({"reservoir": "ideal", "table": "ideal", "table_params": None, "p_i": 8000.0, "p_f": 4000.0, "ratio": 0.5, "nx": nx,
                      "grid": {"kind": grid, "nt": nt, "t_end": 5.0, "seed": seed * 100043 + n}, "schedule": {"kind": "constant"}})
